@@ -225,6 +225,12 @@ theorem batch_immediate_at_most_twice (rounds : List Bool) :
   simp only [runBatch] at this h1
   exact ⟨by decide, by omega, this.2.2⟩
 
+/-- The immediate-retry counters are only ever initialised to 0 and incremented (a reset anywhere
+in the loop would defeat the "at most twice" bound that the loop models above assume). -/
+theorem retry_counters_never_reset :
+    sendRPC_serverErrorCount_writes = [":=0", "++"] ∧
+    sendBatch_immediateRetries_writes = [":=0", "++"] := by decide
+
 /-! ## Non-vacuity -/
 example : sendRPC Backoff.nextBackoff sendRPCArms sendRPCInit [.server, .server, .server, .retryable, .ok] =
     [.attempt .server, .attempt .server, .attempt .server, .sleep (16 * msec),
